@@ -202,6 +202,10 @@ func c16Prop(c *sim.Case) {
 			Logout:      &oidcv1.LogoutConfig{Path: "/logout-" + t.name, RedirectUri: t.idp.EndSessionURL()},
 		}
 		if t.disc {
+			if sim.Weighted(c, "flaky-discovery", 2, 1) == 1 || c16Force && i == 0 {
+				// the first lookups of the discovery document fail (slowly): concurrent first uses share the failure
+				t.idp.DiscFailFirst, t.idp.DiscDelay = int64(1+sim.Pick(c, "disc.fail", 3)), 30*time.Millisecond
+			}
 			cfg.ConfigurationUri = t.idp.DiscoveryURL()
 			cfg.Logout.RedirectUri = ""
 		} else {
@@ -258,7 +262,7 @@ func c16Prop(c *sim.Case) {
 		}
 	}
 
-	var inflight, maxInflight, checks, panics int64
+	var inflight, maxInflight, checks, panics, hung int64
 	check := func(t *c16Tenant, path, cookie string) *sim.Resp {
 		h := map[string]string{"x-tenant": t.name}
 		if cookie != "" {
@@ -273,7 +277,9 @@ func c16Prop(c *sim.Case) {
 			}
 		}
 		r := &sim.Resp{Req: req}
-		func() {
+		finished := make(chan struct{})
+		go func() {
+			defer close(finished)
 			defer func() {
 				if x := recover(); x != nil {
 					atomic.AddInt64(&panics, 1)
@@ -284,6 +290,13 @@ func c16Prop(c *sim.Case) {
 			resp, r.Err = filter.Check(context.Background(), req.Envoy())
 			sim.ParseResp(r, resp)
 		}()
+		select {
+		case <-finished:
+		case <-time.After(45 * time.Second):
+			// every simulated peer answers within milliseconds: a check that is still not back is stuck
+			atomic.AddInt64(&hung, 1)
+			r = &sim.Resp{Req: req, Err: fmt.Errorf("check did not return within 45 s")}
+		}
 		atomic.AddInt64(&inflight, -1)
 		atomic.AddInt64(&checks, 1)
 		return r
@@ -419,7 +432,7 @@ func c16Prop(c *sim.Case) {
 		}()
 	}
 
-	watchdog := time.AfterFunc(120*time.Second, func() {
+	watchdog := time.AfterFunc(240*time.Second, func() {
 		buf := make([]byte, 1<<20)
 		n := runtime.Stack(buf, true)
 		fmt.Printf("INFRA: C16 workload did not finish within 120 s (possible deadlock); goroutine dump follows\n%s\n", buf[:n])
@@ -482,6 +495,31 @@ func c16Prop(c *sim.Case) {
 	if panics > 0 {
 		c.Violation("panic-under-concurrency", "%d checks panicked under concurrency", panics)
 	}
+	if hung > 0 {
+		buf := make([]byte, 4<<20)
+		dump := string(buf[:runtime.Stack(buf, true)])
+		where := "unknown"
+		for _, g := range strings.Split(dump, "\n\n") {
+			if !strings.Contains(g, "filter.Check") && !strings.Contains(g, "ExtAuthZFilter).Check") {
+				continue
+			}
+			for _, l := range strings.Split(g, "\n") {
+				if strings.Contains(l, "istio-ecosystem/authservice/internal") && !strings.Contains(l, "/verif/") {
+					where = strings.TrimSpace(l)
+					if i := strings.Index(where, "("); i > 0 {
+						where = where[:strings.LastIndex(where, "(")]
+					}
+					where = where[strings.Index(where, "authservice/")+len("authservice/"):]
+					break
+				}
+			}
+			if where != "unknown" {
+				c.Logf("%s", short(g, 3000))
+				break
+			}
+		}
+		c.Violation("hang:"+where, "%d checks did not return within 45 s although every simulated peer answers within milliseconds; blocked in %s", hung, where)
+	}
 	reports := parseRaces(raceLogText(c16Offsets))
 	seen := map[string]bool{}
 	// known findings first so that an unknown pair in the same workload is still reported
@@ -519,7 +557,7 @@ func TestC16(t *testing.T) {
 	if !raceEnabled {
 		t.Fatalf("C16 must be built with -race")
 	}
-	r.Rule = "workload programs: 1-3 OIDC filters (static or discovered endpoints, static JWKS or fetcher with 1 s refresh, literal secret or Kubernetes secret reference, optional watched CA file with 10-30 ms refresh) on the shared memory store or Redis, assembled with the real session-store factory, TLS pool and JWKS provider behind server.ExtAuthZFilter.Check; 8-64 goroutines x 3-12 requests of kinds {no cookie, login + fresh session, wait for expiry + refresh, logout, excluded path}, every third request under one of two sessions per filter that all goroutines share (parallel requests of one browser, including concurrent refreshes of one session); background goroutines: secret reconcile every 3 ms, CA file rewrite every 15 ms, key publication every 20 ms. Built with -race, GORACE halt_on_error=0. Oracle: race-detector reports canonicalised to the unordered pair of innermost authservice frames with access kinds; recovered panics; a 120 s watchdog (expiry = inconclusive, exit 2). Non-trivial = at least two checks were in flight simultaneously and every requested background updater fired; distinct = distinct workload program."
+	r.Rule = "workload programs: 1-3 OIDC filters (static or discovered endpoints, static JWKS or fetcher with 1 s refresh, literal secret or Kubernetes secret reference, optional watched CA file with 10-30 ms refresh) on the shared memory store or Redis, assembled with the real session-store factory, TLS pool and JWKS provider behind server.ExtAuthZFilter.Check; 8-64 goroutines x 3-12 requests of kinds {no cookie, login + fresh session, wait for expiry + refresh, logout, excluded path}, every third request under one of two sessions per filter that all goroutines share (parallel requests of one browser, including concurrent refreshes of one session); background goroutines: secret reconcile every 3 ms, CA file rewrite every 15 ms, key publication every 20 ms. Built with -race, GORACE halt_on_error=0. Oracle: race-detector reports canonicalised to the unordered pair of innermost authservice frames with access kinds; recovered panics; a check that has not returned after 45 s although every simulated peer answers within milliseconds is reported as a hang with the blocked frame; a 240 s watchdog on the whole workload (expiry = inconclusive, exit 2). Non-trivial = at least two checks were in flight simultaneously and every requested background updater fired; distinct = distinct workload program."
 	r.Assumptions = []string{"the race detector reports only races between accesses that both execute in the run; paths the workload never takes are invisible", "deadlock freedom is observed, not proven"}
 	parts := map[string]func(*sim.Case){"workloads": c16Prop, "probe": c16Probe}
 	if r.Replay != "" {
